@@ -621,7 +621,9 @@ class RegExFieldFormat(AbstractFieldFormat):
         super().__init__(field_name, is_allowed_to_be_empty, length, rule, data_format, empty_value="")
         try:
             self.regex = re.compile(rule, re.IGNORECASE | re.MULTILINE)
-        except re.error as error:
+        except (re.error, OverflowError, RecursionError) as error:
+            # Besides re.error, absurd repetition counts end in an OverflowError
+            # and deeply nested groups in a RecursionError.
             raise errors.InterfaceError("cannot compile regular expression %s: %s" % (_compat.text_repr(rule), error))
 
     def validated_value(self, value):
